@@ -106,6 +106,11 @@ func (g *exprGen) Gen(typ string, depth int, wide bool) []TExpr {
 				new(builder).e(sub("bool")).s(` ? `).e(sub("string")).s(` : `).e(subRef()).done("conditional"),
 				new(builder).s(`(`).e(sub("string")).s(`)`).done("parens"),
 				new(builder).e(subRef()).s(`[`).e(subRef()).s(`]`).done("index-expr"),
+				// references behind a full splat and behind an attribute splat: in index keys of the per-item part
+				new(builder).e(subRef()).s(`[*].tags[`).e(subRef()).s(`]`).done("splat-then-index-key"),
+				new(builder).e(subRef()).s(`[*].a[`).e(subRef()).s(`].b[`).e(subRef()).s(`]`).done("splat-then-two-index-keys"),
+				new(builder).e(subRef()).s(`.*.tags[`).e(subRef()).s(`]`).done("attr-splat-then-index-key"),
+				new(builder).e(subRef()).s(`[`).e(subRef()).s(`][*].id`).done("index-key-then-splat"),
 				new(builder).s(`"%{ if `).e(subRef()).s(` }a%{ else }${`).e(subRef()).s(`}%{ endif }"`).done("template-directive"),
 			)
 		}
